@@ -132,7 +132,7 @@ func init() {
 	// C17 (as used): the translation of every kind of IUPAC codon inside `variants`, forward and reverse features
 	gens["C17var"] = func(r *RNG, id string) *Case {
 		denseIUPAC = true
-		c := genVarCase(r, id, varOpts{fmtWeights: [2]int{1, 1}, withIns: false, maxGenes: 3, ambRef: true})
+		c := genVarCase(r, id, varOpts{fmtWeights: [2]int{1, 1}, withIns: false, maxGenes: 3, ambRef: true, allowPhase: true})
 		denseIUPAC = false
 		c.Set("focus", "nucaa")
 		c.Tag("dense-iupac")
